@@ -514,7 +514,10 @@ class SymInt:
   def __gt__(s, o): return s._cmp(o, lambda a, b: a > b)
   def __ge__(s, o): return s._cmp(o, lambda a, b: a >= b)
   def __bool__(s): return branch(s.e != 0)
-  def __hash__(s): raise Unsupported("hash of a symbolic value")
+  def __hash__(s):
+    # used as a dict key (e.g. a decoded message type selecting a handler): concretise by forking over the feasible
+    # values -- counted as concretisations; a large domain hits the concretisation budget (inconclusive, never silent)
+    return hash(current().concretise(s.e))
   def __index__(s): return current().concretise(s.e)
   def __int__(s): return s.__index__()
   def __repr__(s): return "<symint%d>" % s.w
